@@ -216,8 +216,8 @@ func (in *instr) post(c *astutil.Cursor) bool {
 	case *ast.GoStmt:
 		c.Replace(in.rewriteGo(n))
 	case *ast.SendStmt:
-		if _, inSelect := c.Parent().(*ast.CommClause); inSelect {
-			return true // handled by the select rewrite
+		if _, inSelect := c.Parent().(*ast.CommClause); inSelect && c.Name() == "Comm" {
+			return true // the case header is handled by the select rewrite (sends in a case body are rewritten here)
 		}
 		st.Sends++
 		c.Replace(&ast.ExprStmt{X: in.call("Send", n.Chan, n.Value)})
@@ -347,6 +347,9 @@ func (in *instr) rewriteCall(c *astutil.Cursor, n *ast.CallExpr) {
 func (in *instr) rewriteRange(n *ast.RangeStmt) ast.Stmt {
 	st.Ranges++
 	okID := in.fresh("ok")
+	// the range expression is evaluated exactly once
+	chID := in.fresh("ch")
+	chInit := &ast.AssignStmt{Lhs: []ast.Expr{chID}, Tok: token.DEFINE, Rhs: []ast.Expr{n.X}}
 	var lhs0 ast.Expr = ast.NewIdent("_")
 	tok := token.DEFINE
 	if n.Key != nil {
@@ -354,19 +357,19 @@ func (in *instr) rewriteRange(n *ast.RangeStmt) ast.Stmt {
 		if n.Tok == token.ASSIGN {
 			// `for x = range ch`: x is assigned, ok must be declared separately
 			decl := &ast.DeclStmt{Decl: &ast.GenDecl{Tok: token.VAR, Specs: []ast.Spec{&ast.ValueSpec{Names: []*ast.Ident{okID}, Type: ast.NewIdent("bool")}}}}
-			recv := &ast.AssignStmt{Lhs: []ast.Expr{lhs0, okID}, Tok: token.ASSIGN, Rhs: []ast.Expr{in.call("Recv2", n.X)}}
+			recv := &ast.AssignStmt{Lhs: []ast.Expr{lhs0, okID}, Tok: token.ASSIGN, Rhs: []ast.Expr{in.call("Recv2", chID)}}
 			brk := &ast.IfStmt{Cond: &ast.UnaryExpr{Op: token.NOT, X: okID}, Body: &ast.BlockStmt{List: []ast.Stmt{&ast.BranchStmt{Tok: token.BREAK}}}}
 			body := append([]ast.Stmt{decl, recv, brk}, n.Body.List...)
-			return &ast.ForStmt{Body: &ast.BlockStmt{List: body}}
+			return &ast.ForStmt{Init: chInit, Body: &ast.BlockStmt{List: body}}
 		}
 	}
 	if n.Value != nil {
 		fatal("%s: range over channel with two variables", in.pos(n))
 	}
-	recv := &ast.AssignStmt{Lhs: []ast.Expr{lhs0, okID}, Tok: tok, Rhs: []ast.Expr{in.call("Recv2", n.X)}}
+	recv := &ast.AssignStmt{Lhs: []ast.Expr{lhs0, okID}, Tok: tok, Rhs: []ast.Expr{in.call("Recv2", chID)}}
 	brk := &ast.IfStmt{Cond: &ast.UnaryExpr{Op: token.NOT, X: okID}, Body: &ast.BlockStmt{List: []ast.Stmt{&ast.BranchStmt{Tok: token.BREAK}}}}
 	body := append([]ast.Stmt{recv, brk}, n.Body.List...)
-	return &ast.ForStmt{Body: &ast.BlockStmt{List: body}}
+	return &ast.ForStmt{Init: chInit, Body: &ast.BlockStmt{List: body}}
 }
 
 func (in *instr) rewriteSelect(n *ast.SelectStmt) ast.Stmt {
